@@ -4,4 +4,4 @@ Require Import ExtrOcamlBasic.
 From Coq Require Import NArith ZArith.
 From NV Require Import Heap.Heap Heap.Ops Heap.Refcount.
 (* N.of_nat / Z.of_N are listed only so that the types n and z used by extract/nvio.ml exist in the module *)
-Extraction "../build/extract/ex_c14.ml" init_state step step_leaks run live_rows inv_b exact_b intern_b live_count N.of_nat Z.of_N.
+Extraction "../build/extract/ex_c14.ml" init_state step step_leaks traps run live_rows inv_b exact_b intern_b live_count N.of_nat Z.of_N.
